@@ -101,6 +101,8 @@ def run(tier, seed, replay):
             cases.append({"src": jqgen.scope_program(r), "inputs": r.sample(uni, 1 if quick else 2)})
         for _ in range(150 if quick else 3000):
             cases.append({"src": jqgen.join_program(r), "inputs": r.sample(uni, 1 if quick else 2)})
+        for _ in range(200 if quick else 3000):
+            cases.append({"src": jqgen.rebind_program(r), "inputs": r.sample(uni, 1 if quick else 2)})
         # 2c. the witnesses of repaired findings
         cases += [{"src": c["src"], "inputs": c["inputs"]} for c in evalfam.regression_cases()]
         # 3. corpus
